@@ -6,12 +6,24 @@
 #define __atomic_load_n(p, m) ::verif::hook_load_n(p, m)
 #define __atomic_store_n(p, v, m) ::verif::hook_store_n(p, v, m)
 #define __atomic_exchange_n(p, v, m) ::verif::hook_exchange_n(p, v, m)
+#define __atomic_fetch_sub(p, v, m) ::verif::hook_fetch_sub(p, v, m)
+#define __atomic_fetch_or(p, v, m) ::verif::hook_fetch_or(p, v, m)
+#define __atomic_fetch_and(p, v, m) ::verif::hook_fetch_and(p, v, m)
+#define __atomic_compare_exchange_n(p, e, d, w, ms, mf) ::verif::hook_compare_exchange_n(p, e, d, w, ms, mf)
+#define __atomic_test_and_set(p, m) ::verif::hook_test_and_set(p, m)
+#define __atomic_clear(p, m) ::verif::hook_clear(p, m)
 #define __builtin_ia32_pause() ::verif::hook_pause()
 #include <frg/spinlock.hpp>
 #undef __atomic_fetch_add
 #undef __atomic_load_n
 #undef __atomic_store_n
 #undef __atomic_exchange_n
+#undef __atomic_fetch_sub
+#undef __atomic_fetch_or
+#undef __atomic_fetch_and
+#undef __atomic_compare_exchange_n
+#undef __atomic_test_and_set
+#undef __atomic_clear
 #undef __builtin_ia32_pause
 
 using namespace verif;
@@ -66,8 +78,10 @@ static std::vector<Instance> instances(const std::string &tier) {
 	using TH = SpinHarness<frg::ticket_spinlock, true>; using SH = SpinHarness<frg::simple_spinlock, false>;
 	v.push_back(sched_instance<TH>("ticket-2x1-all", full, 2, 1));
 	v.push_back(sched_instance<SH>("simple-2x1-all", full, 2, 1));
-	v.push_back(sched_instance<TH>("ticket-2x2-b" + std::to_string(th ? 1000 : 3), th ? full : b3, 2, 2));
-	v.push_back(sched_instance<SH>("simple-2x2-b" + std::to_string(th ? 1000 : 3), th ? full : b3, 2, 2));
+	SchedOptions b5; b5.bound = 5; SchedOptions b7; b7.bound = 7;
+	if(const char *e = getenv("VERIF_SPIN_BOUND")) { SchedOptions o; o.bound = atoi(e); v.push_back(sched_instance<TH>("ticket-2x2-test", o, 2, 2)); }
+	v.push_back(sched_instance<TH>(th ? "ticket-2x2-b7" : "ticket-2x2-b5", th ? b7 : b5, 2, 2));   // all interleavings would be 1.9 million schedules
+	v.push_back(sched_instance<SH>("simple-2x2-all", full, 2, 2));     // 27 380 schedules
 	v.push_back(sched_instance<TH>("ticket-3x1-b" + std::to_string(th ? 3 : 2), th ? b3 : b2, 3, 1));
 	v.push_back(sched_instance<SH>("simple-3x1-b" + std::to_string(th ? 3 : 2), th ? b3 : b2, 3, 1));
 	if(th) { v.push_back(sched_instance<TH>("ticket-4x1-b2", b2, 4, 1)); v.push_back(sched_instance<SH>("simple-4x1-b2", b2, 4, 1)); v.push_back(sched_instance<TH>("ticket-3x2-b2", b2, 3, 2)); }
